@@ -1,5 +1,6 @@
 //! Conformance harness for aggregations and order statistics (C08, C11, C12, parts of C20).
 mod agg;
+mod comp;
 mod nulls;
 mod order;
 
@@ -12,6 +13,7 @@ fn main() {
         "replay-agg" => agg::replay(&args),
         "replay-order" => order::replay(&args),
         "replay-nulls" => nulls::replay(&args),
+        "replay-composite" => comp::replay(&args),
         other => tool_error(&format!("unknown command {other:?}")),
     }
 }
